@@ -230,6 +230,36 @@ theorem c01_invalid_beats_notfound (m : Matcher) (E : Eco) (h : MatcherLaws m E)
   simp only [hk, Bool.false_eq_true, if_false]
   rcases hbad with hb | hb <;> simp [hb]
 
+/-- **a dist-tag is resolved before anything is judged**: when the spec resolves as a
+    dist-tag to `rv`, the verdict is exactly the verdict of the plain spec `rv` — validity,
+    membership and comparison all look at the tag's target — while the message keeps quoting
+    the tag as written (`c01_message_verbatim`) -/
+theorem c01_tag_resolved_before_validity (m : Matcher) (L rv : Text) (versions : List Text) (cur : Text)
+    (hnk : isPotentialDistTag rv = false) :
+    (compareVersion m (okReads (some L) (some rv) versions) cur).map (·.1) =
+    (compareVersion m (okReads (some L) none versions) rv).map (·.1) := by
+  simp [compareVersion, okReads, hnk]
+
+/-- **a spec above the latest that no cached version satisfies is "not found"**, never silent:
+    whatever the matcher says about spec vs latest (latest / outdated / newer), a spec nothing
+    in the cache satisfies is reported as missing -/
+theorem c01_newer_and_missing_is_notfound (m : Matcher) (L : Text) (tagRes : Option Text)
+    (versions : List Text) (cur : Text)
+    (hk : (tagRes.isNone && isPotentialDistTag cur) = false)
+    (hvalid : m.cmp (tagRes.getD cur) L ≠ .invalid)
+    (hmiss : m.exists_ (tagRes.getD cur) versions = false) :
+    diagFor m (okReads (some L) tagRes versions) cur =
+      some (.error, "Version ".toList ++ cur ++ " not found in registry".toList) := by
+  cases tagRes with
+  | some rv =>
+    simp only [Option.getD_some] at hvalid hmiss
+    cases hc : m.cmp rv L <;>
+      simp_all [diagFor, compareVersion, okReads, createDiagnostic]
+  | none =>
+    simp only [Option.getD_none, Option.isNone_none, Bool.true_and] at hvalid hmiss hk
+    cases hc : m.cmp cur L <;>
+      simp_all [diagFor, compareVersion, okReads, createDiagnostic]
+
 /-- the message always quotes the checked (unresolved) spec and the cached latest verbatim -/
 theorem c01_message_verbatim (m : Matcher) (L : Text) (tagRes : Option Text) (versions : List Text)
     (cur : Text) (sev : Severity) (msg : Text)
